@@ -1004,6 +1004,10 @@ func c07raw(c *h.Ctx, cs *h.Case) {
 	tk := strings.Fields(cs.Ops[0])
 	var seed int64
 	fmt.Sscan(tk[2], &seed)
+	if len(tk) == 4 && tk[3] == "est" {
+		c07rawEst(c, cs, seed)
+		return
+	}
 	r := rand.New(rand.NewSource(seed))
 	cl := fix.NewCluster(2, true)
 	defer cl.Close()
@@ -1357,7 +1361,7 @@ func c07gen(c *h.Ctx, yield func(*h.Case)) {
 	// several handlers held at once (three-way and wider interleavings): up to three protocol messages wait past their
 	// tree lookup / between IsRegistered and Register while envelopes are handled and unused trees are removed; they go
 	// on in any order. The first case is the schedule of the non-vacuity example of Props/C07.lean.
-	for i := 0; i < c.Pick(30, 800); i++ {
+	for i := 0; i < c.Pick(24, 800); i++ {
 		ops := []string{fmt.Sprintf("c07 state %s direct", states[r.Intn(3)])}
 		if i == 0 {
 			ops = []string{"c07 state idle direct", "c07 proto badprotoU member 1", "c07 resptree U roX good roX 1", "c07 hold freshU member 1", "c07 hold freshU member 2",
@@ -1429,6 +1433,8 @@ func c07gen(c *h.Ctx, yield func(*h.Case)) {
 	for i := 0; i < c.Pick(4, 60); i++ {
 		c.Count("class=rawbytes")
 		yield(&h.Case{Class: "rawbytes", Ops: []string{fmt.Sprintf("c07 rawbytes %d", r.Int63n(1<<40))}})
+		c.Count("class=rawbytes established")
+		yield(&h.Case{Class: "rawbytes established", Ops: []string{fmt.Sprintf("c07 rawbytes %d est", r.Int63n(1<<40))}})
 	}
 }
 
